@@ -5349,6 +5349,7 @@ write_function_instance(ostream &out, FunctionRemap *remap,
   }
 
   bool only_pyobjects = true;
+  bool truncated_params = false;
 
   int pn = 0;
 
@@ -5418,6 +5419,7 @@ write_function_instance(ostream &out, FunctionRemap *remap,
       // We can't wrap this.  We sometimes get here for default arguments.
       // This parameter and all parameters after it take their default value
       // (passing a later one would shift it into this one's position).
+      truncated_params = true;
       break;
     }
 
@@ -6698,6 +6700,16 @@ write_function_instance(ostream &out, FunctionRemap *remap,
       }
       break;
     }
+
+  } else if (truncated_params &&
+             (args_type == AT_varargs || args_type == AT_keyword_args)) {
+    // None of the (optional) parameters can be passed from Python, so the
+    // only acceptable call is the one without arguments.
+    indent(out, indent_level)
+      << "if (Dtool_CheckNoArgs(args"
+      << (args_type == AT_keyword_args ? ", kwds" : "") << ")) {\n";
+    ++open_scopes;
+    indent_level += 2;
   }
 
   while (extra_convert.is_text_available()) {
